@@ -709,11 +709,16 @@ impl World {
 
     /// respond to outstanding[k]
     pub fn respond(&mut self, k: usize, code: u16, size: usize) -> bool {
+        self.respond_v(k, code, size, None)
+    }
+
+    /// same, with the response's HTTP version chosen by the application (None: the request's)
+    pub fn respond_v(&mut self, k: usize, code: u16, size: usize, version: Option<u8>) -> bool {
         if k >= self.outstanding.len() {
             return true;
         }
         let o = self.outstanding.remove(k);
-        let version = crate::connrun::version_code(o.sreq.request.http_version());
+        let version = version.unwrap_or_else(|| crate::connrun::version_code(o.sreq.request.http_version()));
         let (resp, bytes) = self.make_response(o.c, o.j, code, size, version);
         self.clients[o.c].expected.push(Expected { j: o.j, bytes });
         let mut slot = Some(resp);
